@@ -42,6 +42,7 @@ type NodeCfg struct {
 	GCPeriod          uint32 `json:"gc_period,omitempty"`
 	NoVerifyTx        bool   `json:"no_verify_tx,omitempty"`
 	SaveStorageBatch  bool   `json:"save_storage_batch,omitempty"`
+	SaveInvocations   bool   `json:"save_invocations,omitempty"`
 }
 
 // Sizes returns (committee size, validators count) of a profile.
@@ -98,6 +99,7 @@ func (c ChainCfg) Blockchain(n NodeCfg) config.Blockchain {
 			RemoveUntraceableBlocks: n.RemoveUntraceable,
 			GarbageCollectionPeriod: n.GCPeriod,
 			SaveStorageBatch:        n.SaveStorageBatch,
+			SaveInvocations:         n.SaveInvocations,
 		},
 	}
 	if cfg.MaxBlockSystemFee == 0 {
